@@ -51,7 +51,8 @@ fn preamble(hash: &[u8; 32], pad: usize) -> Vec<u8> {
 }
 
 fn ix(rep: &mut Report, thorough: bool) {
-    let rt = tokio::runtime::Builder::new_current_thread().build().unwrap();
+    // (time enabled and paused: subject code may use timers; the inputs here never stall, so no virtual time passes)
+    let rt = tokio::runtime::Builder::new_current_thread().enable_time().start_paused(true).build().unwrap();
     let good = hash_password(PW);
     let sentinel = enc(SETTINGS, 0, b"v=2");
     let check = |rep: &mut Report, name: &str, bytes: &[u8], cuts: &[usize], want_ok: bool, want_consumed: Option<usize>| {
